@@ -328,6 +328,49 @@ pub fn grid(fam: Fam, ft: Ft) -> Vec<Cell> {
     v
 }
 
+/// Dense log-spaced lattice over the shape-like parameter of a family (other parameters canonical): closes the
+/// gaps between the switch grid and the random cells, so that a law defect confined to a shape interval of
+/// width >= 1/per_decade decades is always sampled.
+pub fn shape_lattice(fam: Fam, ft: Ft, per_decade: usize) -> Vec<Cell> {
+    let (slo, shi) = shape_range(fam, ft);
+    let mut v = vec![];
+    let span = |lo: f64, hi: f64| -> Vec<f64> {
+        let n = (((hi / lo).log10()) * per_decade as f64).ceil() as usize;
+        (0..=n).map(|i| lo * (hi / lo).powf(i as f64 / n.max(1) as f64)).collect()
+    };
+    match fam {
+        Fam::Gamma => for k in span(slo, shi.min(300.0)) { v.push(c(fam, ft, &[k, 1.0])); },
+        Fam::ChiSquared | Fam::StudentT => for k in span(slo, shi.min(300.0)) { v.push(c(fam, ft, &[k])); },
+        Fam::FisherF => for k in span(slo, shi.min(100.0)) { v.push(c(fam, ft, &[k, 3.5])); v.push(c(fam, ft, &[4.5, k])); },
+        Fam::Beta => for k in span(slo, shi.min(100.0)) { v.push(c(fam, ft, &[k, k])); v.push(c(fam, ft, &[k, 2.5])); v.push(c(fam, ft, &[0.7, k])); },
+        Fam::Pareto | Fam::Weibull => for k in span(slo, shi.min(100.0)) { v.push(c(fam, ft, &[1.0, k])); },
+        Fam::Frechet => for k in span(slo, shi.min(100.0)) { v.push(c(fam, ft, &[0.0, 1.0, k])); },
+        Fam::SkewNormal => for a in span(0.05, 100.0) { v.push(c(fam, ft, &[0.0, 1.0, a])); v.push(c(fam, ft, &[0.0, 1.0, -a])); },
+        Fam::InverseGaussian => for r in span(1e-2, 1e2) { let mu = ft.rnd(1.0); let mut l = ft.rnd(r); if l < 1e-2 { l = ft.next_up(ft.rnd(1e-2)); } v.push(c(fam, ft, &[mu, l])); },
+        Fam::Nig => for a in span(0.1, 100.0) { v.push(c(fam, ft, &[a, 0.0])); v.push(c(fam, ft, &[a, 0.6 * a])); },
+        Fam::LogNormal => for s in span(1e-2, 3.0) { v.push(c(fam, ft, &[0.0, s])); },
+        Fam::LogNormalMeanCv => for cv in span(1e-2, 10.0) { v.push(c(fam, ft, &[1.0, cv])); },
+        Fam::Pert => for sh in span(0.1, 100.0) { v.push(c(fam, ft, &[0.0, 1.0, 0.3, sh])); },
+        Fam::PertMean => for sh in span(0.5, 100.0) { v.push(c(fam, ft, &[-1.0, 3.0, (-1.0 + sh * 0.2 + 3.0) / (sh + 2.0), sh])); },
+        Fam::Poisson => for l in span(0.05, shi.min(1e5)) { v.push(c(fam, ft, &[l])); },
+        Fam::Zeta => for s1 in span(slo - 1.0, shi - 1.0) { v.push(c(fam, ft, &[1.0 + s1])); },
+        Fam::Zipf => { let nmax = if ft == Ft::F32 { 1048576.0 } else { 1e9 }; for s in span(0.05, 10.0) { v.push(c(fam, ft, &[nmax, s])); v.push(c(fam, ft, &[50.0, s])); } },
+        Fam::Geometric => for p in span(1e-6, 0.999) { v.push(Cell::newi(fam, &[], &[p])); },
+        Fam::Binomial => {
+            // np lattice through the BINV / BTPE regimes for three sizes
+            for &n in &[64u64, 5000, 1 << 32] {
+                for np in span(0.2, (n as f64 / 2.0).min(3000.0)) {
+                    let p = np / n as f64;
+                    v.push(Cell::newi(fam, &[n], &[p]));
+                    v.push(Cell::newi(fam, &[n], &[1.0 - p]));
+                }
+            }
+        }
+        _ => {}
+    }
+    v
+}
+
 /// A random cell inside E; 25 % of the mass on near-switch perturbations.
 pub fn random_cell(fam: Fam, ft: Ft, r: &mut BaseRng) -> Cell {
     let (slo, shi) = shape_range(fam, ft);
